@@ -2,8 +2,15 @@
 # land.sh <cluster> : integrate a builder's scratch pair, commit its fix patches to /repo, fill commit ids
 set -e
 c="$1"
+base="${2:-builders-base}"
 cd /verif
-python3 tools/integrate.py "$c" --apply | grep -v "^copy-new" || true
+plan=$(python3 tools/integrate.py "$c" --base "$base")
+if echo "$plan" | grep -q "^CONFLICT" ; then
+  echo "$plan" | grep "^CONFLICT"
+  echo "!! conflicts (wrong base tag?). Nothing applied. Usage: land.sh <cluster> <base-tag>"
+  exit 1
+fi
+python3 tools/integrate.py "$c" --base "$base" --apply | grep -v "^copy-new" || true
 for p in /tmp/w/$c/verif/fixes/*.patch; do
   [ -f "$p" ] || continue
   b=$(basename "$p" .patch)
